@@ -25,6 +25,7 @@ THEOREMS = [
     "Typedpy.C09.hostile_examples",
     "Typedpy.C09.schemaToDecl_inverse",
     "Typedpy.C09.schemaToClass_inverse",
+    "Typedpy.C09.schemaToDef_inverse",
     "Typedpy.C09.canonReq_mem",
     "Typedpy.C09.rho0_classes",
     "Typedpy.C09.roundtrip_counterexample_default_required",
